@@ -27,6 +27,10 @@ fn main() {
         vcheck::props::c15::print_configs(args[2] == "thorough");
         return;
     }
+    if args[1] == "struct-corpus" {
+        vcheck::props::common::write_structured_corpus(&PathBuf::from(std::env::var("VERIF_DIR").unwrap_or_else(|_| "/verif".into())));
+        return;
+    }
     if args[1] == "fuzz-corpus" {
         // vcheck fuzz-corpus <target> <dir>
         let ctx = Ctx::new("C06", Tier::Quick, 0, "exploration", PathBuf::from(std::env::var("VERIF_DIR").unwrap_or_else(|_| "/verif".into())));
